@@ -7,3 +7,9 @@ package pdf417
 func VerifHighLevel(data string) ([]int, error) {
 	return highlevelEncode(data)
 }
+
+// VerifDimensions exposes the symbol shape chosen for a number of data
+// codewords and error correction codewords to the conformance harness.
+func VerifDimensions(dataWords, eccWords int) (cols, rows int) {
+	return calcDimensions(dataWords, eccWords)
+}
